@@ -5775,6 +5775,9 @@ class CodegenCtx:
             with result as body:
                 body.add(f"state->state = {self.dfa.states.index(action.end_target)};")
                 if transition is not None:
+                    if self._transition_advances_early(transition, is_end):
+                        # the handler looks at the current byte again, so the pointer must still be on it
+                        body.add("--(*start);" if ProgramData.do(ProgramFlag.INDIRECT_START_PTR) else "--start;")
                     body.add(f"goto repeatswitch;") # Fallthrough via switch
                 else:
                     body.add(f"return {self.program_name.upper()}_OK;") # end processing instructions
@@ -5972,6 +5975,16 @@ class CodegenCtx:
     def _transition_skip_action_label(self, transition: DFTransition):
         return f"skipaction_{id(transition)}"
 
+    def _transition_advances_early(self, transition: DFTransition, from_end=False):
+        """
+        Does the code for this transition move the start pointer past the current byte before running the actions (because one of
+        them may return)?
+        """
+
+        needs_early_advance = any(x.may_return_early() for x in transition.actions)
+        immediate_done = transition.target in self.dfa.accepting_states and not ProgramData.do(ProgramFlag.STRICT_DONE_TOKEN_GENERATION) and all(x.error_handling for x in transition.target.transitions)
+        return needs_early_advance and not from_end and not transition.is_fallthrough and not immediate_done
+
     def _generate_transition_body(self, transition: DFTransition, from_end=False):
         transition_body = Outputter()
         # Set the next state
@@ -5982,7 +5995,7 @@ class CodegenCtx:
         target_overriden = False
         needs_early_advance = any(x.may_return_early() for x in transition.actions)
         immediate_done = transition.target in self.dfa.accepting_states and not ProgramData.do(ProgramFlag.STRICT_DONE_TOKEN_GENERATION) and all(x.error_handling for x in transition.target.transitions)
-        if needs_early_advance and not from_end and not transition.is_fallthrough and not immediate_done:
+        if self._transition_advances_early(transition, from_end):
             if ProgramData.do(ProgramFlag.INDIRECT_START_PTR):
                 transition_body.add(f"++(*start);");
             else:
